@@ -10,10 +10,14 @@ Dlit == <<L(0, "Example::"), L(0, ""), L(3, "literal(block) w"), L(0, "")>>
 Ddir == <<L(0, "intro w"), L(0, ""), L(0, ".. note::"), L(0, ""), L(3, "nested body w"), L(0, "")>>
 Dlead == <<L(0, ""), L(0, "late w"), L(0, "")>>
 Dnote == <<L(0, ".. note::"), L(0, ""), L(3, "only body w"), L(0, "")>>
-Docs == {D1, D2, Dfield, Dbul, Dlit, Ddir, Dlead, Dnote}
+Dbib == <<L(0, ":Author: someone w"), L(0, ":Version: 1"), L(0, ""), L(0, "after the fields w"), L(0, "")>>     \* one-word field names first
+Docs == {D1, D2, Dfield, Dbib, Dbul, Dlit, Ddir, Dlead, Dnote}
 SomeDocs == {D1, Ddir, Dlead}
+\* nlate: how many of the class's last members are declared AFTER its inner classes in the source (rendering is the same)
 E == [k |-> "", name |-> "", args |-> <<>>, doc |-> D0, value |-> "", vtype |-> "", help |-> "", bases |-> <<>>,
-      ctors |-> <<>>, members |-> <<>>, attrs |-> <<>>, inner |-> <<>>]
+      ctors |-> <<>>, members |-> <<>>, attrs |-> <<>>, inner |-> <<>>, nlate |-> 0]
+\* a '@module' doccomment at the top of the file (unnamed: the name comes from the run)
+Mod(d) == [k |-> "module", name |-> "MODNAME", hasdoc |-> TRUE, doc |-> d]
 Fn(d) == [E EXCEPT !.k = "function", !.name = "@", !.args = <<"a", "b">>, !.doc = d]
 Mc(d) == [E EXCEPT !.k = "macro", !.name = "@", !.args = <<"a">>, !.doc = d]
 Var(d) == [E EXCEPT !.k = "variable", !.name = "@", !.value = "v", !.vtype = "str", !.doc = d]
@@ -40,5 +44,10 @@ LongPages == {<<Cl(d, <<>>, <<>>, <<M("a_method_with_a_long_name", <<"int", "str
                [Fn(d) EXCEPT !.args = LongParams]>> : d \in SomeDocs}
 MacroTestPages == {<<[Ts(d) EXCEPT !.value = "macro"], [Sc(d) EXCEPT !.value = "macro"], Fn(D1)>> : d \in SomeDocs}
 TwoInnerPages == {<<Cl(d, <<>>, <<>>, <<>>, <<>>, <<"n2", "n3">>), Cl(D0, <<>>, <<>>, <<>>, <<>>, <<>>), Cl(d, <<>>, <<>>, <<>>, <<>>, <<>>), Fn(d)>> : d \in SomeDocs}
-AllPages == LongPages \cup MacroTestPages \cup TwoInnerPages \cup SinglePages \cup UndocPages \cup PairPages \cup ClassPages
+\* the module doccomment in every doc shape (a field list first, a directive first, ...), alone and before entries
+ModulePages == {<<Mod(d)>> : d \in Docs} \cup {<<Mod(d), Kind9(i, d2)>> : d \in Docs, i \in {1, 3}, d2 \in {D1, Dfield}}
+\* members of the outer class declared after an inner class has ended
+LateMemberPages == {<<[Cl(d, <<>>, <<>>, <<M("m1", <<"int">>, <<"a">>, FALSE, d), M("m2", <<>>, <<>>, FALSE, d2)>>, <<>>, <<"n2">>) EXCEPT !.nlate = 1],
+                      Cl(d2, <<>>, <<>>, <<M("im", <<>>, <<>>, FALSE, D1)>>, <<>>, <<>>), Fn(D1)>> : d \in SomeDocs, d2 \in {D0, D1, Dbul}}
+AllPages == ModulePages \cup LateMemberPages \cup LongPages \cup MacroTestPages \cup TwoInnerPages \cup SinglePages \cup UndocPages \cup PairPages \cup ClassPages
 =============================================================================
